@@ -223,7 +223,9 @@ fn load_known_from(v: &Value, out: &mut Vec<Known>) {
 pub fn match_known<'a>(known: &'a [Known], prop: &str, sig: &str) -> Option<&'a Known> {
     known
         .iter()
-        .find(|k| k.property == prop && k.status == "open" && !k.signature.is_empty() && sig.contains(&k.signature))
+        // a signature starting with '=' identifies the finding only when its own reproducer is replayed
+        // (differential checks: the failure signature does not identify the root cause)
+        .find(|k| k.property == prop && k.status == "open" && !k.signature.is_empty() && !k.signature.starts_with('=') && sig.contains(&k.signature))
 }
 
 // ---------------------------------------------------------------------------------------
@@ -472,7 +474,7 @@ pub fn run_check(prop: &dyn Prop, tier: Tier, extra: impl FnOnce(&mut Agg, &mut 
         agg.evals += 1;
         match (&out.verdict, k.status.as_str()) {
             (Verdict::Fail { sig, .. }, "open") => {
-                if sig.contains(&k.signature) {
+                if sig.contains(k.signature.trim_start_matches('=')) {
                     known_lines.push(format!("KNOWN-FINDING: property={id} {} [{}]", k.what, k.id));
                 } else {
                     violations.push(json!({"stream": k.stream, "rendered": k.repro, "sig": sig, "detail": format!("known finding {} now fails with a different signature", k.id), "index": 0, "tape": ""}));
